@@ -221,6 +221,7 @@ type episode struct {
 	unstable  map[uint64]bool      // epoch whose answers differed between invocations
 	malformed bool                 // some answer carried a duty outside the requested epoch
 	lastTick  int64
+	prevDefs  map[core.Duty]map[uint64]string // stored definitions after the previous tick / reorg
 }
 
 type mockKey struct {
@@ -473,6 +474,7 @@ func (e *episode) handle(run *hx.Run, slot core.Slot, base int) string {
 
 	// expected number of triggers according to the scheduler's own map (used only for waiting)
 	sn := e.sched.SnapshotVerif()
+	e.checkAltered(run, sn)
 	want := 0
 	for d := range sn.Duties {
 		if d.Slot == slot.Slot {
@@ -619,6 +621,7 @@ func (e *episode) monitorTick(run *hx.Run, slot core.Slot, trigs []trig, newSess
 	if int64(s) <= e.lastTick {
 		run.Violate("sched:slot_ticked_again", fmt.Sprintf("slot %d handled after slot %d", s, e.lastTick))
 	}
+	prevTick := e.lastTick
 	e.lastTick = int64(s)
 
 	// Was the slot's epoch completely resolved when its duties were triggered? Invocations for the
@@ -650,6 +653,42 @@ func (e *episode) monitorTick(run *hx.Run, slot core.Slot, trigs []trig, newSess
 			}
 		}
 	}
+
+	// input-distribution bookkeeping
+	for _, ses := range newSessions {
+		pat := "v"
+		if ses.vals == nil {
+			pat += "F"
+		} else {
+			pat += "k"
+			if !ses.hasEpoch {
+				pat += ":none"
+			} else {
+				for _, ok := range []bool{ses.attOK, ses.proOK, ses.synOK} {
+					if ok {
+						pat += "k"
+					} else {
+						pat += "F"
+					}
+				}
+				if ses.epoch != epoch {
+					pat += ":next"
+				}
+				if ses.complete() {
+					pat += ":complete"
+				}
+			}
+		}
+		run.Count("resolve:" + pat)
+	}
+	gap := int64(s) - prevTick
+	if prevTick < 0 {
+		gap = 0
+	}
+	if gap > 3 {
+		gap = 3 + gap/int64(e.spe)
+	}
+	run.Case(fmt.Sprintf("tick:%d:%d:%d:%d", s%e.spe, len(newSessions), len(trigs), gap))
 
 	seenNow := map[core.Duty]bool{}
 	for _, t := range trigs {
@@ -781,6 +820,35 @@ func (e *episode) monitorTick(run *hx.Run, slot core.Slot, trigs []trig, newSess
 	}
 }
 
+// checkAltered: a definition stored for (duty, pubkey) before and after a tick or reorg event must
+// be the same one — retries may add definitions or drop whole sets (trim), never alter one.
+func (e *episode) checkAltered(run *hx.Run, sn scheduler.SnapshotVerif) {
+	cur := map[core.Duty]map[uint64]string{}
+	for duty, set := range sn.Defs {
+		m := map[uint64]string{}
+		for pk, d := range set {
+			b, err := d.MarshalJSON()
+			hx.Must(err)
+			m[corePkID(pk)] = defStr(d) + string(b)
+		}
+		cur[duty] = m
+	}
+	if !e.malformed {
+		for duty, old := range e.prevDefs {
+			now, ok := cur[duty]
+			if !ok {
+				continue
+			}
+			for pk, od := range old {
+				if nd, ok := now[pk]; ok && nd != od {
+					run.Violate("sched:definition_altered", fmt.Sprintf("duty %v pubkey %d: stored definition changed from %s to %s", duty, pk, od, nd))
+				}
+			}
+		}
+	}
+	e.prevDefs = cur
+}
+
 // tickBeforeTriggers: an invocation for the slot's own epoch made during this very tick precedes
 // the trigger loop; one made in an earlier tick does so trivially.
 func (s *session) tickBeforeTriggers(tick, epoch uint64) bool {
@@ -859,6 +927,7 @@ func (e *episode) doAdv(run *hx.Run, ns int64) string {
 func (e *episode) doReorg(run *hx.Run, ep uint64) string {
 	before := e.sched.SnapshotVerif().ResolvedEpoch
 	e.sched.HandleChainReorgEvent(context.Background(), eth2p0.Epoch(ep))
+	e.checkAltered(run, e.sched.SnapshotVerif())
 	if e.reorgOn && ep < before {
 		// the scheduler dropped what it had resolved; the monitors' resolution record is void
 		e.res = map[uint64]*resolved{}
